@@ -150,7 +150,7 @@ func (e *c15env) validate(raw []byte, m settingsMask) (rej quickfix.MessageRejec
 }
 
 var mutationKinds = []string{"unknown-msgtype", "missing-required-top", "missing-required-member", "undefined-known", "undefined-unknown", "undefined-user",
-	"ill-typed", "enum", "empty", "count+1", "count-1", "swap-members", "header-in-body", "body-in-header", "duplicate", "duplicate-tolerated-unknown", "duplicate-tolerated-user"}
+	"ill-typed", "enum", "empty", "count+1", "count-1", "swap-members", "header-in-body", "body-in-header", "duplicate", "duplicate-tolerated-unknown", "duplicate-tolerated-user", "header-enum"}
 
 type expectation struct {
 	reasons  []int
@@ -215,6 +215,30 @@ func (e *c15env) run(ch specxml.Chooser, kind string, mask settingsMask, replay 
 	head := []fixwire.Field{fixwire.F(35, e.md.MsgType), fixwire.F(49, "SND"), fixwire.F(56, "TGT"), fixwire.F(34, strconv.Itoa(1+ch.Intn(5000))), fixwire.F(52, "20240102-03:04:05")}
 	if ch.Intn(3) == 0 {
 		head = append(head, fixwire.F(50, "SUB"))
+	}
+	// optional scalar header fields of the header definition that applies (the transport
+	// dictionary's for FIXT), with conforming values drawn from that definition
+	hdrSpec := e.dp.spec
+	if e.transport != nil {
+		hdrSpec = e.transport.spec
+	}
+	type hdrField struct {
+		at  int
+		def *specxml.Member
+	}
+	var addedHeader []hdrField
+	if hm, herr := hdrSpec.Expand(hdrSpec.Header, true); herr == nil && ch.Intn(2) == 0 {
+		std := map[int]bool{8: true, 9: true, 35: true, 49: true, 56: true, 34: true, 52: true, 50: true, 43: true, 97: true, 122: true}
+		for _, m := range hm {
+			if m.IsGroup || std[m.Tag] || m.Type == "DATA" || m.Type == "LENGTH" || m.Type == "XMLDATA" || m.Type == "NUMINGROUP" {
+				continue
+			}
+			if len(m.Enums) > 0 && ch.Intn(2) == 0 || ch.Intn(8) == 0 {
+				head = append(head, fixwire.F(m.Tag, specxml.ValueFor(m, ch)))
+				addedHeader = append(addedHeader, hdrField{len(head) - 1, m})
+				c.Class("header-field-from-header-definition")
+			}
+		}
 	}
 	ann := annotate(items)
 	build := func(head []fixwire.Field, body []fixwire.Field) []byte {
@@ -443,6 +467,23 @@ func (e *c15env) run(ch specxml.Chooser, kind string, mask settingsMask, replay 
 		exp = expectation{reasons: []int{5}, tags: []int{ann[i].f.Tag}}
 		if typedKind(ann[i].def.Type) {
 			exp.reasons = append(exp.reasons, 6) // "~~" is also ill-typed for a typed field: both identify it
+		}
+	case "header-enum":
+		var cands []hdrField
+		for _, h := range addedHeader {
+			if len(h.def.Enums) > 0 && !isMultiType(h.def.Type) {
+				cands = append(cands, h)
+			}
+		}
+		if len(cands) == 0 {
+			c.Class("mutation-not-applicable:" + kind)
+			return
+		}
+		h := cands[ch.Intn(len(cands))]
+		mHead[h.at].Value = []byte("~~")
+		exp = expectation{reasons: []int{5}, tags: []int{h.def.Tag}}
+		if typedKind(h.def.Type) {
+			exp.reasons = append(exp.reasons, 6)
 		}
 	case "empty":
 		if len(allIdx) == 0 || ch.Intn(4) == 0 {
